@@ -228,6 +228,23 @@ def work_words(task):
                 q = "%s %s" % (P, w)
                 ry, rn = run(drv, q, tok), run(drv, "%s !%s" % (P, w[1:]), tok)
                 split_check(ev, "?word/!word", (fn, P, w), rp, ry, rn, False, q)
+        # Cooked DIEs that inherit attributes through DW_AT_abstract_origin / DW_AT_specification: an
+        # assertion about an attribute must leave the DIE on the stack alone there too.  One sample
+        # with such links and one generated forest with link trees, every pair, prefix `entry`.
+        from .. import dwforest as DF
+        from ..dwgen import build_file
+        from ..dwcheck import TempElf
+        g = DF.ForestGen(random.Random(0xC04 + lo), DF.FCfg(max_units=3, max_dies=30, partial=0.5, bulk=0.0))
+        with TempElf(build_file(g.forest())) as path:
+            for f2 in (os.path.join("/repo/tests", "nullptr.o"), path):
+                tok2 = "V%d" % drv.open(f2, False)
+                rp = run(drv, "entry", tok2)
+                if not (ok(rp) and rp["res"]):
+                    continue
+                for w in pairs:
+                    ry, rn = run(drv, "entry " + w, tok2), run(drv, "entry !" + w[1:], tok2)
+                    split_check(ev, "?word/!word", (os.path.basename(f2)[:8], "entry", w, lo), rp, ry, rn, False, "entry " + w)
+                ev.label("inheriting-dies-file")
         ev.sample({"file": fn, "word_pairs": len(pairs), "prefixes": list(base)}, cap=2)
     except DriverCrash as e:
         ev.violations.append({"property": PID, "reason": "driver crashed: " + e.report[-3000:], "query": e.request[:200], "signature": "C04:wcrash:" + e.request[:100]})
